@@ -166,6 +166,7 @@ namespace pika::execution::experimental {
 
             virtual ~async_rw_mutex_shared_state_base()
             {
+                PIKA_VERIF_POST("arw.dtor", this, next_state ? 1 : 0, next_state ? next_state.use_count() : 0);
                 if (next_state)
                 {
                     // We are also not accessing this shared state directly anymore, so we reset
@@ -220,6 +221,7 @@ namespace pika::execution::experimental {
                 while (current != nullptr)
                 {
                     void* next = current->next;
+                    PIKA_VERIF_POINT("arw.cont", this, 0, 0);
                     current->continuation();
                     current = static_cast<async_rw_mutex_operation_state_base*>(next);
                 }
